@@ -394,6 +394,34 @@ func ruleC18Err(r *Run) {
 	w := r.W
 	rule := "C18-ERR"
 	r.Floor(rule, 8)
+	// the decoder sees the values the caller handed in: DecodeUrlValues passes its own values parameter
+	// (not a filtered or rewritten copy) to the decoder, so what was encoded is what is decoded
+	if duv := w.FnOpt("binding", "DecodeUrlValues"); duv != nil && len(duv.Params) > 0 {
+		nDec := 0
+		eachInstr(duv, func(in ssa.Instruction) {
+			c, ok := in.(*ssa.Call)
+			if !ok || !strings.HasSuffix(calleeName(c), "formam.Decoder).Decode") {
+				return
+			}
+			nDec++
+			a := c.Call.Args
+			v := a[len(a)-2]
+			for {
+				if ct, ok := v.(*ssa.ChangeType); ok {
+					v = ct.X
+					continue
+				}
+				if cv, ok := v.(*ssa.Convert); ok {
+					v = cv.X
+					continue
+				}
+				break
+			}
+			okRaw := v == ssa.Value(duv.Params[0])
+			r.Check(rule, "binding.DecodeUrlValues:decoder input", w.InstrPos(in), okRaw, map[bool]string{true: "the decoder receives the caller's values unchanged", false: "the values are filtered or rewritten before decoding (" + shortCanon(canon(v)) + "): what a client encoded is not what gets bound (e.g. empty list elements or blank fields disappear)"}[okRaw])
+		})
+		r.Exists(rule, "binding.DecodeUrlValues:decode call", duv.Pos(), nDec >= 1, fmt.Sprintf("%d decoder call(s)", nDec))
+	}
 	for _, f := range w.Funcs {
 		inBinding := f.Pkg != nil && f.Pkg.Pkg.Path() == modPath+"/pkg/binding"
 		inCtxBinding := strings.HasSuffix(w.Fset.Position(f.Pos()).Filename, "context_binding.go")
@@ -1329,7 +1357,7 @@ func ruleC20Override(r *Run) {
 			member := false
 			for _, d := range p.decs {
 				b, ok := d.Cond.(*ssa.BinOp)
-				if !ok || b.Op != token.EQL {
+				if !ok || (b.Op != token.EQL && b.Op != token.NEQ) {
 					continue
 				}
 				s, okc := constString(b.Y)
@@ -1337,9 +1365,12 @@ func ruleC20Override(r *Run) {
 					continue
 				}
 				if ld, isLd := b.X.(*ssa.UnOp); isLd && isMethodAddr(ld.X) {
-					if s == "POST" && d.Truth {
+					if s == "POST" && d.Truth == (b.Op == token.EQL) {
 						post = true
 					}
+					continue
+				}
+				if b.Op != token.EQL {
 					continue
 				}
 				// comparison on the override value (must be the stored value)
@@ -1469,6 +1500,33 @@ func ruleC20Override(r *Run) {
 	if okOnce {
 		all, _ := allPathsHit(cl, nil, func(x ssa.Instruction) bool { return x == serve[0] })
 		okOnce = all && !inLoop(serve[0])
+	} else if len(serve) > 1 {
+		// several call sites (guard clauses): every path runs exactly one of them
+		isServe := map[ssa.Instruction]bool{}
+		okOnce = true
+		for _, sv := range serve {
+			isServe[sv] = true
+			if inLoop(sv) {
+				okOnce = false
+			}
+		}
+		paths, complete := enumPaths(cl, nil, 4000)
+		if !complete || len(paths) == 0 {
+			okOnce = false
+		}
+		for _, p := range paths {
+			n := 0
+			for _, b := range p.blocks {
+				for _, x := range b.Instrs {
+					if isServe[x] {
+						n++
+					}
+				}
+			}
+			if n != 1 {
+				okOnce = false
+			}
+		}
 	}
 	_ = req
 	r.Check(rule, "handlers.HTTPMethodOverrideHandler:delegates once", cl.Pos(), okOnce, "the wrapped handler runs exactly once on every path")
